@@ -48,7 +48,7 @@ fn split_out<C: Ciphersuite>(
 }
 
 pub fn exec<C: RandomizedCiphersuite>(op: &str, a: &A) -> Option<String> {
-    if matches!(op, "ser" | "de" | "json_ser" | "json_de" | "prim") {
+    if matches!(op, "ser" | "de" | "json_ser" | "json_de" | "prim" | "resume") {
         return crate::codec_ops::exec_codec::<C>(op, a);
     }
     let comms = |k: &str| a.get(k).and_then(p_comms::<C>);
